@@ -45,7 +45,14 @@ RULE = ("model tie: (1) Metadata(metafile)._map_pieces() -> per piece the (full,
         "single-file form), with a SUB-DIRECTORY named like the torrent, and with the name once more one level down; RESUME sequences (v1, v2, hybrid; Assembler "
         "API, CLI in process, and `python -m torrentfile rebuild` in separate processes): rebuild into the empty destination (judged), "
         "then 1-2 rebuilt files are cut to 0 / 1 / half / length-1 bytes as an interrupted copy leaves them, then the same rebuild again, and "
-        "the destination is judged again by the same reference (failure kinds prefixed `resume:`).  A case is non-trivial when it is distinct and copies at least "
+        "the destination is judged again by the same reference (failure kinds prefixed `resume:`).  Payloads at SCALE (end to end only, "
+        "same scatterings, decoys, routes and reference judgement): piece lengths 256 KiB / 512 KiB / 1 / 2 / 4 MiB, one shape each at 8 and 16 MiB (thorough: more "
+        "through harness/scale.py) and candidates of 1 .. 9 MiB aimed at code that reads, maps or copies through 1 / 4 / 8 MiB windows: a "
+        "candidate just above 1 MiB whose tail shares a piece with whole small files, candidates of exactly k MiB and one byte either "
+        "side, a small file before the big one, candidates above 1 MiB shorter than a 2 / 4 MiB piece and of a piece and a half, two "
+        "big candidates inside one piece, single files; each shape through a v1 metafile (creator, reference encoder) AND a v2 / hybrid "
+        "metafile (TorrentFileV2, TorrentFileHybrid, TorrentAssembler, reference encoder -- roots not computed by the tool's own "
+        "hasher), random shapes k MiB + r, batches with small torrents.  A case is non-trivial when it is distinct and copies at least "
         "one non-empty file.")
 TRUSTED_BASE = rc.TRUSTED_BASE
 ASSUMPTIONS = ["no symbolic links or special files in search directories or destination",
